@@ -954,3 +954,100 @@ def mutate(rng, src, n=None):
                 del lines[rng.randrange(len(lines))]
             return '\n'.join(lines) + '\n'
     return untok(toks)
+
+
+# ------------------------------------------------------------------ boundary literals (always run in full)
+INT_SUFFIXES = ['', 'u', 'l', 'ul', 'll', 'ull']
+CASE_VARIANTS = ['U', 'L', 'UL', 'LU', 'lu', 'LL', 'ULL', 'uLL', 'llu', 'LLU', 'Ull']
+LIT_CTX = ['int v = @;', 'unsigned v = @;', 'long v = @;', 'unsigned long long v = @;', 'char v = @;', 'enum E v = @;',
+           'unsigned t[2] = {1u, @};', 'long long w = @ + 1;', 'int g(long long a) { return a < @; }',
+           'unsigned h(unsigned a) { return a + @; }',
+           'enum Q { A = @ }; enum Q q = A;', 'enum Q { A = @, B }; enum Q q = B;', 'enum Q { A = @, B }; int q = B;',
+           'void g(int x) { switch (x) { case @: break; } }', 'void g(long long x) { switch (x) { case @: break; } }',
+           '#if @ > 0\nint v;\n#endif', '#if @ == @ - 1 + 1\nint v;\n#endif']
+SMALL_CTX = ['int a[@];', 'struct Q { int f : @; };', 'struct Q { unsigned long long f : @; }; struct Q q = {1};',
+             'int v[3] = {[@] = 1};']
+NEG_ENUM = ['enum Q { A = -@ }; enum Q q = A;', 'enum Q { A = -@ - 1 }; enum Q q = A;', 'enum Q { A = -@, B }; enum Q q = B;',
+            'enum Q { A = -@ - 1, B }; int q = B;', 'int v = -@;', 'int v = -@ - 1;', 'long long v = -@ - 1;',
+            'void g(int x) { switch (x) { case -@ - 1: break; } }']
+FLOAT_LITS = ['1.7976931348623157e308', '1.7976931348623159e308', '1.8e308', '1e308', '1e309', '1e400', '1e9999',
+              '4.9e-324', '2.4e-324', '1e-400', '3.4028235e38', '3.4028236e38', '3.5e38', '1e39', '1.4e-45', '1e-46',
+              '1e38f', '1e39f', '3.5e38F', '1e309L', '1e4932L', '0x1p1023', '0x1p1024', '0x1.fffffffffffffp1023',
+              '1e+', '1e-', '1e', '1E', '.e1', '1.e', '1.e+', '1.2.3', '1e5e5', '1e1.5', '1..', '.', '00.5', '09.5', '1e05',
+              '0e0', '0.0e-999', '1.0e+0008', '123456789012345678901234567890.0', '0.000000000000000000000000000001',
+              '18446744073709551616.0', '9223372036854775808.0', '4294967296.0', '2147483648.0', '-2147483649.0']
+FLOAT_CTX = ['float v = @;', 'double v = @;', 'long double v = @;', 'int v = @;', 'char v = @;', 'unsigned char v = @;',
+             'unsigned long long v = @;', 'long long v = (long long)@;', 'int v = (int)@;', 'unsigned v = (unsigned)(@);',
+             'float f(void) { return @; }', 'int f(double d) { return d < @; }', 'float t[2] = {@, @};',
+             'int a[(int)@ ? 1 : 2];', 'void g(int x) { switch (x) { case (int)@: break; } }', 'enum Q { A = (int)@ };',
+             'double v = -@;', 'double v = @ * @;', 'double v = @ * 10;', 'float v = @ / 1e-300;']
+CHAR_LITS = ["''", "'ab'", "'abc'", "'abcd'", "'abcde'", "'abcdefghi'", "'\\xFFF'", "'\\xff'", "'\\x'", "'\\x100'",
+             "'\\777'", "'\\400'", "'\\377'", "'\\8'", "'\\q'", "'\\u00e9'", "'\\u12'", "'\\U0001F600'", "L'ab'", "L'\\xFFFF'",
+             "L''", "u'a'", "U'a'", "u8'a'", "'\\\\'", "'''", "'\\''", "'\"'", "'\\\"'", "'a", "'", "'\\", "'\\0'", "'\\00'",
+             "'\\000'", "'\\0000'", "'\\x00000041'", "'\\n\\n'", "' '", "'\\ '", "'\\e'", "'\\?'", "'??/'"]
+CHAR_CTX = ['int v = @;', 'char v = @;', 'unsigned char v = @;', 'void g(int x) { switch (x) { case @: break; } }',
+            '#if @\nint v;\n#endif', '#if @ == 97\nint v;\n#endif', 'enum Q { A = @ };', 'int a[@];', 'char s[] = {@, @};',
+            'int f(void) { return @ + 1; }']
+STR_LITS = ['"\\q"', '"\\x"', '"\\xFFF"', '"\\x41"', '"\\777"', '"\\400"', '"\\8"', '"\\u12"', '"\\u1234"', '"\\u00e9"',
+            '"\\U0001F600"', '"\\U1234"', '"abc', '"a\\', '"\\"', '"\\\\"', '"a" "b', '"\\0"', '"\\0\\0"', '""', '"" ""',
+            'L"abc"', 'L"\\x1234"', 'u8"abc"', 'u"abc"', 'U"abc"', '"\\e"', '"??/"', '"a\\\nb"', '"\t"', '"\\x0"',
+            '"' + 'a' * 300 + '"', '"%s%d%"', "\"'\"", '"\\\'"']
+STR_CTX = ['char v[] = @;', 'char *v = @;', 'const char *v = @;', 'char v[2] = @;', 'char v[1] = @;', 'char v[400] = @;',
+           'int v = sizeof(@);', 'int v = @[0];', 'char *t[] = {@, @};', 'int f(void) { return fv(@); }',
+           'struct S v = {.s = @};', 'unsigned char v[] = @;', 'int v[] = @;', 'short v[] = @;', 'char v[] = {@};',
+           '#include @', '#error @', '#if @\n#endif', '#define M @\nchar *v = M;', '_Static_assert(1, @);']
+
+
+def _radix(v, r):
+    if r == 'd':
+        return str(v)
+    if r == 'x':
+        return hex(v) if v % 2 else hex(v).upper().replace('0X', '0x')
+    return ('0' + oct(v)[2:]) if v else '0'
+
+
+MINI = 'enum E { E0, E1 = 5, E2 };\nstruct S { int a; char *s; };\nint fv(const char *fmt, ...);\n'
+FEW_CTX = ['unsigned v = @;', 'unsigned long long v = @;', 'enum Q { A = @, B }; enum Q q = B;',
+           'void g(int x) { switch (x) { case @: break; } }', '#if @ > 0\nint v;\n#endif']
+
+
+def boundary_literals():
+    """[(kind, text)]: integer literals at / below / beyond the limit of every (suffix, width) in every constant
+    context, floating limits, character and string literal oddities; one literal per program"""
+    vals = set()
+    for b in (7, 8, 15, 16, 31, 32, 63, 64):
+        vals.update({(1 << b) - 1, 1 << b, (1 << b) + 1})
+    vals.update({0, 1, 65, 1 << 65, (1 << 128) - 1})
+    vals = sorted(vals)
+    out = []
+
+    def put(v, f, ctxs):
+        for c in ctxs:
+            out.append(('c-boundary', MINI + c.replace('@', f) + '\n'))
+        if v <= 65537 or v >= (1 << 64):      # sizes / widths / designators: no multi-gigabyte objects
+            for c in (SMALL_CTX if ctxs is LIT_CTX else SMALL_CTX[:1]):
+                out.append(('c-boundary', MINI + c.replace('@', f) + '\n'))
+    for v in vals:
+        for s in INT_SUFFIXES:
+            put(v, str(v) + s, LIT_CTX)
+            put(v, _radix(v, 'x') + s, FEW_CTX)
+            put(v, _radix(v, 'o') + s, FEW_CTX)
+    for v in ((1 << 16) - 1, 1 << 16, (1 << 32) - 1, 1 << 32, (1 << 63) - 1, 1 << 63, (1 << 64) - 1, 1 << 64):
+        for s in CASE_VARIANTS:
+            put(v, str(v) + s, FEW_CTX)
+            put(v, hex(v).upper() + s, FEW_CTX[:2])
+    for v in vals:
+        if v:
+            for c in NEG_ENUM:
+                out.append(('c-boundary', MINI + c.replace('@', str(v)) + '\n'))
+                out.append(('c-boundary', MINI + c.replace('@', hex(v) + 'll') + '\n'))
+    for lits, ctxs in ((FLOAT_LITS, FLOAT_CTX), (CHAR_LITS, CHAR_CTX), (STR_LITS, STR_CTX)):
+        for l in lits:
+            for c in ctxs:
+                out.append(('c-boundary', MINI + c.replace('@', l) + '\n'))
+    seen, res = set(), []
+    for k, s in out:
+        if s not in seen:
+            seen.add(s)
+            res.append((k, s))
+    return res
